@@ -383,6 +383,10 @@ def fslack(c, P, ctype):
 
 def check_mc(ck, R, c, stats):
     t, k, n, C = c["type"], c["k"], c["n"], c["C"]
+    # d5: the run trains multi-class offsets with BiasSolver / BiasSolverSimplex (Rprop on a sub-gradient, known finding D5).
+    # Every check whose outcome depends on the optimality of those offsets carries a key  <kind>:offset:...  ; OVA and the
+    # binary machine solve the offset exactly through the equality constraint and never get such a key.
+    d5 = bool(c["bias"]) and t != "OVA"
     vs = c["variants"]
     lines = []
     if t != "OVA": lines.append(raw_line(c, vs[0], c["id"] + "_raw"))
@@ -442,12 +446,11 @@ def check_mc(ck, R, c, stats):
                 if not abs(s) <= 1e-9 * C * n: bad.append(("constraints", "OVA machine %d with offset: sum of coefficients %r != 0" % (cc, s))); break
     if bad: return bad[:1]
     bound = gap_bound(c, k)
-    if c["bias"] and t != "OVA":
+    if d5:
         # offsets: a trained machine whose loss drops by more than the accuracy-implied amount when ONLY the offsets are moved
         # (weights fixed) is certifiably not a solution within the solver accuracy
         for r in runs:
             v = r["v"]; what = v.get("what", "base")
-            if r["iters"] >= c.get("maxiter", 10 ** 18): continue
             bb = r["B"]
             if t in S2Z: bb = [x - math.fsum(bb) / k for x in bb]
             G = [[r["Ftrain"][i][cc] - bb[cc] for cc in range(k)] for i in range(n)]
@@ -455,14 +458,14 @@ def check_mc(ck, R, c, stats):
             tolb = 4 * bound + fslack(c, r["P"], v["ctype"])
             stats.setdefault("offset_ratio", []).append((gain / tolb, c["id"] + ":" + what))
             if gain > tolb:
-                return [("offset-not-optimal:" + what, "offsets %s are not optimal: with the same weight vectors the offsets %s lower the primal objective from %r by %.6g (> %.3g implied by eps=%g)" % ([round(x, 5) for x in bb], [round(x, 5) for x in nb], r["P"], gain, tolb, c["eps"]))]
-    rig = not c["bias"] or t == "OVA"      # Dlow bounds the optimum of the whole problem (OVA with offset: equality constraint checked)
+                return [("offset:not-optimal:" + what, "offsets %s are not optimal: with the same weight vectors the offsets %s lower the primal objective from %r by %.6g (> %.3g implied by eps=%g)" % ([round(x, 5) for x in bb], [round(x, 5) for x in nb], r["P"], gain, tolb, c["eps"]))]
+    rig = not d5                            # Dlow bounds the optimum of the whole problem (OVA with offset: equality constraint checked)
     stats.setdefault("gap_ratio", []).append(((base["P"] - Dlow) / bound, c["id"]))
     for r in runs:
         v = r["v"]; what = v.get("what", "base")
         sl = fslack(c, r["P"], v["ctype"])
         g = r["P"] - Dlow
-        if r["stop"] == 4 or r["iters"] >= c.get("maxiter", 10 ** 18):
+        if r["stop"] == 4 or (not d5 and r["iters"] >= c.get("maxiter", 10 ** 18)):
             bad.append(("no-termination:" + what + (":bias" if c["bias"] else ""), "the solver ran into the iteration limit %d without reaching eps=%g (iterations %d, KKT violation %.3g)" % (c.get("maxiter", 0), c["eps"], r["iters"], r["acc"]))); continue
         if rig or r is base:
             if g < -sl:
@@ -482,7 +485,7 @@ def check_mc(ck, R, c, stats):
             tolP = 4 * bound + fslack(c, base["P"], v["ctype"])
             stats.setdefault("biasP_ratio", []).append((dP / tolP, c["id"] + ":" + what))
             if not dP <= tolP:
-                bad.append(("invariance-objective:" + what + ":bias", "primal objective %r vs %r of the base configuration (|diff| %.3g > %.3g)" % (r["P"], base["P"], dP, tolP))); continue
+                bad.append(("offset:invariance-objective:" + what, "primal objective %r vs %r of the base configuration (|diff| %.3g > %.3g)" % (r["P"], base["P"], dP, tolP))); continue
             rad = 2 * math.sqrt(2 * (4 * bound + base["g"]))
         worst = 0.0
         for pi in range(len(c["probes"])):
@@ -491,10 +494,10 @@ def check_mc(ck, R, c, stats):
                 f1 = [x - math.fsum(f1) / k for x in f1]; f0 = [x - math.fsum(f0) / k for x in f0]
             for cc in range(k):
                 dv = abs(f1[cc] - f0[cc]); tol = rad * math.sqrt(kpp[pi]) + 1e-9
-                if c["bias"]: tol += rad
+                if d5: tol += rad
                 worst = max(worst, dv / tol)
                 if not dv <= tol:
-                    bad.append(("invariance:" + what + (":bias" if c["bias"] else ""), "decision value of class %d on probe %d: %r vs %r in the base configuration (|diff| %.3g > %.3g from the duality gaps %.3g / %.3g)" % (cc, pi, f1[cc], f0[cc], dv, tol, r["g"], base["g"])))
+                    bad.append((("offset:invariance:" if d5 else "invariance:") + what, "decision value of class %d on probe %d: %r vs %r in the base configuration (|diff| %.3g > %.3g from the duality gaps %.3g / %.3g)" % (cc, pi, f1[cc], f0[cc], dv, tol, r["g"], base["g"])))
                     break
             if bad: break
         stats.setdefault("inv_ratio", []).append((worst, c["id"] + ":" + str(what)))
@@ -569,7 +572,7 @@ def check_bin2(ck, R, c, stats):
             tol = rad * math.sqrt(kpp[pi]) + 1e-9 + (rad if c["bias"] else 0.0)
             worst = max(worst, abs(dmc - fb) / tol)
             if not abs(dmc - fb) <= tol:
-                return [("two-class-reduction:" + what + (":bias" if c["bias"] else ""), "%s on two classes, C=%r: (f_1-f_0)/2 = %r on probe %d but the binary machine with C=%r gives %r (|diff| %.3g > %.3g)" % (t, C, dmc, pi, Cb, fb, abs(dmc - fb), tol))]
+                return [(("offset:two-class-reduction:" if c["bias"] else "two-class-reduction:") + what, "%s on two classes, C=%r: (f_1-f_0)/2 = %r on probe %d but the binary machine with C=%r gives %r (|diff| %.3g > %.3g)" % (t, C, dmc, pi, Cb, fb, abs(dmc - fb), tol))]
         stats.setdefault("bin2_ratio", []).append((worst, c["id"] + ":" + what))
         stats.setdefault("configs", set()).add((t, c["bias"], "bin2", what, raw["iters"] >= 3))
     return bad
@@ -667,6 +670,8 @@ def gen_free(rng, big):
             ai = M * s * w; aj = M * s * (1 - w)
             if rng.random() < 0.15:      # snapping region
                 ai = M * rng.choice([1e-13, 1 - 1e-13, 0.5e-12]); aj = max(0.0, M - ai) * rng.choice([0, 1, 1e-13])
+            if rng.random() < 0.08:      # infeasible start (never produced by the solvers): must move to the best edge candidate
+                ai, aj = rng.choice([(-abs(num()), aj), (ai, -abs(num())), (M, M * 0.5 + 1e-3)])
             lines.append("TRI " + " ".join(hx(v) for v in (ai, aj, num(), num(), Qii, Qij, Qjj, M)))
         elif u < 0.88:
             Qii, Qij, Qjj = psd(); lines.append("GAIN " + " ".join(hx(v) for v in (Qii, Qjj, Qij, num(), num())))
@@ -865,6 +870,7 @@ def main():
         "modelled, not verified: shrinking book-keeping of the multi-class solvers, working-set selection, BiasSolver (Rprop), the linear coordinate-descent solvers - these are monitored"]
     ck.assumptions = ["kernel matrices symmetric positive semi-definite (linear / Gaussian kernels); C > 0; labels cover 0..classes-1",
                       "tolerances of the metamorphic monitors are derived from the measured duality gap (strong convexity in w): rigorous without offset; with offset (Rprop on a sub-gradient) a heuristic radius of 4x the accuracy-implied gap is used",
+                      "keys  ^(mc|bin2):offset:  mark checks that depend on the optimality of multi-class offsets trained by BiasSolver/BiasSolverSimplex (finding D5); no check of an offset-free configuration, of OVA or of the binary machine carries such a key",
                       "two-class reduction is stated with the regularisation constant scaled per formulation (WW, CS, LLW, ADM, ATM, MMR: C/2; ATS, reinforced, OVA: C)"]
     ck.proofs()
     model = extract_model(PID, "C16Extract.v", "c16_driver.ml")
@@ -1007,7 +1013,7 @@ def main():
                   not dis_steps and not mon_steps, "" if not (dis_steps or mon_steps) else "%d differing steps, %d monitor failures" % (len(dis_steps), mon_steps))
 
     # ---- 4. metamorphic groups on the real trainers
-    stats = {}; gfail = 0; reported = set(); bykey = {}
+    stats = {}; gfail = 0; gknown = 0; known_seen = set(); reported = set(); bykey = {}
     skipped = 0
     for c in groups:
         if R.hangs >= 12: skipped += 1; continue          # every further non-terminating run would cost its time limit
@@ -1016,10 +1022,18 @@ def main():
         except (ValueError, IndexError, KeyError) as ex:
             bad = [("parse", "could not interpret the harness output: %r" % (ex,))]
         if bad:
-            gfail += 1
             key, msg = bad[0]
             k2 = "%s:%s:%s" % (c["kind"], key, c["type"])
             bykey[k2] = bykey.get(k2, 0) + 1
+            if ck.match_known(k2) is not None:
+                # a registered known finding: reported once (KNOWN-FINDING line), kept as a replay, not minimised, not counted
+                gknown += 1
+                if k2 not in known_seen:
+                    known_seen.add(k2)
+                    cf = ck.write_replay("known_%s.txt" % c["id"], "# %s\nGROUP %s\n" % (msg, json.dumps(c)))
+                    ck.violation(k2, {"case_file": cf, "group": c, "observed": msg}, msg)
+                continue
+            gfail += 1
             if k2 in reported or len(reported) >= 8: continue
             reported.add(k2)
             # shrink the data set while the same key fails
@@ -1047,7 +1061,9 @@ def main():
             ck.violation(k2, {"case_file": cf, "group": small, "observed": b3[0][1], "replay_cmd": "python3 tools/c16.py --replay " + cf},
                          "spec monitor fails on the implementation (%s, %s): %s" % ({"mc": "configuration invariance", "bin2": "two-class reduction", "lin": "linear vs kernel solver"}[c["kind"]], c["type"], b3[0][1]))
     if groups:
-        ck.oblige("metamorphic monitors on %d groups (%d trainer runs)" % (len(groups), stats.get("runs", 0)), gfail == 0, "" if not gfail else "%d groups fail: %s" % (gfail, bykey))
+        ck.oblige("metamorphic monitors on %d groups (%d trainer runs; %d groups hit a registered known finding)" % (len(groups), stats.get("runs", 0), gknown), gfail == 0,
+                  "" if not gfail else "%d groups fail: %s" % (gfail, {k: v for k, v in bykey.items() if ck.match_known(k) is None}))
+        ck.notes["groups_hitting_known_findings"] = gknown
 
     cfgs = stats.get("configs", set())
     ck.cov["evaluations"] = nfree + nnum + nsteps + stats.get("runs", 0)
